@@ -46,11 +46,19 @@ type dasCfg struct {
 	Answers []string `json:"answers"`
 	// Events switches
 	Crash bool `json:"crash"`
+	// Lag: a head announcement that skips heights leaves the skipped headers missing from the
+	// header store (GetByHeight answers ErrNotFound for them) until a "fill" event stores them -
+	// the header feed runs ahead of the syncer
+	Lag bool `json:"lag,omitempty"`
 }
 
 func (c dasCfg) String() string {
-	return fmt.Sprintf("range=%d,limit=%d,head0=%d,maxh=%d,retryorder=%d,crash=%v,ans=%s",
-		c.Range, c.Limit, c.InitHead, c.MaxHeight, c.RetryOrder, c.Crash, strings.Join(c.Answers, "/"))
+	lag := ""
+	if c.Lag {
+		lag = ",lag"
+	}
+	return fmt.Sprintf("range=%d,limit=%d,head0=%d,maxh=%d,retryorder=%d,crash=%v,ans=%s%s",
+		c.Range, c.Limit, c.InitHead, c.MaxHeight, c.RetryOrder, c.Crash, strings.Join(c.Answers, "/"), lag)
 }
 
 const (
@@ -91,6 +99,7 @@ type vWorld struct {
 
 	storeHead uint64
 	tail      uint64
+	missing   map[uint64]bool // headers at or below storeHead that are not in the store yet (cfg.Lag)
 
 	ds     *vDatastore
 	subCh  chan *header.ExtendedHeader
@@ -155,6 +164,13 @@ func (s vStore) GetByHeight(ctx context.Context, h uint64) (*header.ExtendedHead
 	}
 	if h < s.w.tail || h > s.w.storeHead {
 		return nil, libhead.ErrNotFound
+	}
+	if s.w.missing[h] {
+		// the worker records the height as failed without ever calling the sampler
+		s.w.mu.Lock()
+		s.w.everFail[h] = true
+		s.w.mu.Unlock()
+		return nil, fmt.Errorf("verif store: header %d not synced yet: %w", h, libhead.ErrNotFound)
 	}
 	return vHeader(h), nil
 }
@@ -387,6 +403,9 @@ func (s *dasSys) Enabled() []string {
 			}
 		}
 		ev = append(ev, "tick")
+		if len(s.w.missing) > 0 {
+			ev = append(ev, "fill")
+		}
 		if s.anyBackoffPending() {
 			ev = append(ev, "backoff")
 		}
@@ -396,6 +415,9 @@ func (s *dasSys) Enabled() []string {
 		}
 	case phStopped:
 		ev = append(ev, "start")
+		if len(s.w.missing) > 0 {
+			ev = append(ev, "fill")
+		}
 		if s.w.storeHead < s.cfg.MaxHeight {
 			ev = append(ev, "grow")
 		}
@@ -467,9 +489,23 @@ func (s *dasSys) Apply(ev string) error {
 	case "head":
 		h, _ := strconv.ParseUint(parts[1], 10, 64)
 		if h > s.w.storeHead {
+			if s.cfg.Lag {
+				// the announced header is stored, the skipped ones are not yet
+				for g := s.w.storeHead + 1; g < h; g++ {
+					if s.w.missing == nil {
+						s.w.missing = map[uint64]bool{}
+					}
+					s.w.missing[g] = true
+				}
+			}
 			s.w.storeHead = h // the syncer stores a header before announcing it
 		}
 		s.w.subCh <- vHeader(h)
+	case "fill":
+		for _, g := range vx.SortedKeys(s.w.missing) {
+			delete(s.w.missing, g)
+			break
+		}
 	case "tick":
 		s.w.inTick = true
 		time.Sleep(vBgInterval + time.Second)
@@ -803,7 +839,7 @@ func (s *dasSys) Check() error { return s.err }
 func (s *dasSys) Fingerprint() string {
 	var b strings.Builder
 	w := s.w
-	fmt.Fprintf(&b, "ph=%d crashed=%v storeHead=%d tail=%d cp=%s bgPrev=%d|", s.ph, s.crashed, w.storeHead, w.tail, w.lastCP, w.bgPrev)
+	fmt.Fprintf(&b, "ph=%d crashed=%v storeHead=%d tail=%d cp=%s bgPrev=%d missing=%v|", s.ph, s.crashed, w.storeHead, w.tail, w.lastCP, w.bgPrev, vx.SortedKeys(w.missing))
 	b.WriteString("sampled=")
 	for _, h := range vx.SortedKeys(w.sampled) {
 		fmt.Fprintf(&b, "%d,", h)
@@ -873,6 +909,8 @@ func (s *dasSys) drain(hist []string) error {
 		return nil
 	}
 	rounds := 6*int(s.cfg.MaxHeight) + 8*s.cfg.Limit + 12
+	// fair continuation: the syncer backfills every header that is still missing
+	s.w.missing = nil
 	for i := 0; i < rounds; i++ {
 		switch s.ph {
 		case phStopping:
@@ -970,13 +1008,14 @@ func runDasCheck(t *testing.T, prop string) {
 			{dasCfg{Range: 2, Limit: 1, InitHead: 2, MaxHeight: 4, Answers: ans, Crash: true}, 7},
 			{dasCfg{Range: 1, Limit: 2, InitHead: 2, MaxHeight: 4, Answers: ans, Crash: true, RetryOrder: 1}, 6},
 			{dasCfg{Range: 3, Limit: 1, InitHead: 3, MaxHeight: 5, Answers: []string{"ok", "fail"}, Crash: true}, 7},
+			{dasCfg{Range: 2, Limit: 1, InitHead: 1, MaxHeight: 4, Answers: []string{"ok", "fail"}, Crash: true, Lag: true}, 6},
 		}
 	} else {
 		for _, rg := range []uint64{1, 2, 3} {
 			for _, lim := range []int{1, 2} {
 				for _, ih := range []uint64{1, 2, 3} {
 					for _, ro := range []int{0, 1} {
-						runs = append(runs, run{dasCfg{Range: rg, Limit: lim, InitHead: ih, MaxHeight: ih + 3, Answers: ans, Crash: true, RetryOrder: ro}, 9})
+						runs = append(runs, run{dasCfg{Range: rg, Limit: lim, InitHead: ih, MaxHeight: ih + 3, Answers: ans, Crash: true, RetryOrder: ro, Lag: ro == 1 && ih < 3}, 9})
 					}
 				}
 			}
